@@ -260,9 +260,13 @@ def _mutate(I, site):
 def differ_case(k, site):
     def h(I):
         kind, sh = _kind(k), SHAPES[k]
-        a = B.build(I, kind, sh, "a")
+        ov_a = None
+        if site[1] == "ipair":
+            # two concrete, large, neighbouring integers (a relative tolerance would call them equal)
+            ov_a = {site[2]: site[3][0]}
+        a = B.build(I, kind, sh, "a", ov=ov_a)
         _header_non_nan(I, kind, a)
-        ov, patch = _mutate(I, site)
+        ov, patch = ({site[2]: site[3][1]}, {}) if site[1] == "ipair" else _mutate(I, site)
         sh2 = dict(sh)
         sh2.update(patch)
         b = B.build(I, kind, sh2, "a", ov=ov)
@@ -296,6 +300,10 @@ def count_case(k, delta):
         I.prove(f"C14.{k}.differs_by_{what}.symmetric", e is None and I.not_(r), f"{type(e).__name__ if e else ''}")
         I.goal("done")
     return h
+
+
+# integer header scalars: large neighbouring values must be told apart exactly
+IPAIRS = {"data3d": "a.freq", "emg": "a.freq", "force3d": "a.freq", "fpdata": "a.freq", "data2d": "a.freq"}
 
 
 def _expand(k, site):
@@ -337,6 +345,9 @@ def instances(tier):
         sites = SITES[k] if tier == "quick" else [x for st in SITES[k] for x in _expand(k, st)]
         for site in sites:
             out.append(Instance(f"{k}.differ.{site[0]}", differ_case(k, site), goals=["done"], cost=32 if gapkind else 2))
+        if k in IPAIRS:
+            for v0, v1 in ((100000, 100001), (2000000000, 2000000001)):
+                out.append(Instance(f"{k}.differ.frequency_{v0}_vs_{v1}", differ_case(k, (f"frequency", "ipair", IPAIRS[k], (v0, v1))), goals=["done"], cost=32 if gapkind else 2))
         if k in COUNT_KEY or k == "events":
             out.append(Instance(f"{k}.count.plus", count_case(k, +1), goals=["done"], cost=64 if gapkind else 2))
             out.append(Instance(f"{k}.count.minus", count_case(k, -1), goals=["done"], cost=16 if gapkind else 2))
